@@ -209,7 +209,7 @@ def replay_reject(b, e, chk):
         oris = [np.tile(np.eye(3), (n, 1, 1)) for _ in range(sh["nOri"])]
         vols = [np.full(n, 1.0 / n) for _ in range(sh["nFrac"])]
         mins.append(b.mineral(sh["phase"], n, oris, vols))
-    phi = [1.0] if len(e["asm"]) == 1 else [0.25, 0.75]
+    phi = {"one": [1.0], "interior": [0.25, 0.75], "first-only": [1.0, 0.0], "second-only": [0.0, 1.0], "almost-first-only": [1.0 - 1e-12, 1e-12]}[e.get("phi", "one" if len(e["asm"]) == 1 else "interior")]
     try:
         b.average(mins, e["asm"], phi)
         out = "ok"
@@ -223,12 +223,12 @@ def replay_reject(b, e, chk):
         return out
     shape = [(s["phase"], s["n"], s["nOri"], s["nFrac"]) for s in e["shapes"]]
     if e["outcome"] == "ValueError" and out == "ok":
-        sig = dict(clause="mismatch-accepted", table_clause=e["clause"])
+        sig = dict(clause="mismatch-accepted", table_clause=e["clause"], phi=e.get("phi", "-"))
     elif e["outcome"] == "ValueError":
         sig = dict(clause="mismatch-rejected-with-other-exception", table_clause=e["clause"], exc=out)
     else:
         sig = dict(clause="well-formed-rejected", exc=out)
-    chk.violation(sig, f"rejection table: minerals (phase, grains, orientation snapshots, volume snapshots) = {shape}: spec says {e['outcome']}, code -> {out}", dict(kind="reject", entry=e))
+    chk.violation(sig, f"rejection table: phase fractions {phi} of {e['asm']}, minerals (phase, grains, orientation snapshots, volume snapshots) = {shape}: spec says {e['outcome']}, code -> {out}", dict(kind="reject", entry=e))
     return out
 
 
